@@ -71,54 +71,6 @@ mod c04 {
         kani::cover!(!enc && accepted && moved && h.plain.ctr < c1 && c1 - h.plain.ctr > 16, "unsecured session accepts a restart");
         kani::cover!(enc && accepted && moved && h.plain.ctr < c1, "in-window first-time counter on a secure session");
     }
-    /// `Session::post_recv` consults the session's receive window with the session's own
-    /// encryption status and WITHOUT roll-over arithmetic, and turns exactly a refusal into
-    /// `Err(Duplicate)`: the session-level result is the window step of property C04.
-    /// (Window states: `new(k)` optionally moved by one accepted counter - the fields of the window
-    /// are private to `dedup`, whose own harnesses cover every state.)
-    // TIER: quick   KIND: complete
-    #[kani::proof]
-    #[kani::stub(embassy_time::Instant::now, fake_now)]
-    fn c04_session_post_recv_is_window_step() {
-        let mut s = Session::new(1, kani::any(), false, Address::new(), None, 0, 0, 0);
-        s.mode = match kani::any::<u8>() % 4 {
-            0 => SessionMode::PlainText,
-            1 => SessionMode::Pase { fab_idx: kani::any() },
-            2 => SessionMode::Case { fab_idx: kani::any(), cat_ids: kani::any() },
-            _ => SessionMode::Group { fab_idx: kani::any(), group_id: kani::any() },
-        };
-        let enc = !matches!(s.mode, SessionMode::PlainText);
-        let k: u32 = kani::any();
-        let c1: u32 = kani::any();
-        let moved: bool = kani::any();
-        s.rx_ctr_state = RxCtrState::new(k);
-        let mut w = RxCtrState::new(k);
-        if moved {
-            let a = s.rx_ctr_state.post_recv(c1, enc, false);
-            let b = w.post_recv(c1, enc, false);
-            kani::assume(a && b);
-        }
-        let mut h = PacketHdr::new();
-        h.plain.ctr = kani::any();
-        h.proto.exch_id = kani::any();
-        if kani::any() {
-            h.proto.set_initiator();
-        }
-        h.proto.proto_opcode = kani::any();
-
-        let r = s.post_recv(&h);
-
-        let accepted = w.post_recv(h.plain.ctr, enc, false);
-        let dup = matches!(&r, Err(e) if e.code() == ErrorCode::Duplicate);
-        kani::assert(dup == !accepted, "C04.session.duplicate_iff_window_refuses");
-        // afterwards the session's window refuses that counter in any case
-        let again = s.rx_ctr_state.post_recv(h.plain.ctr, enc, false);
-        kani::assert(!again, "C04.session.counter_closed_afterwards");
-        kani::assert(!(enc && moved && h.plain.ctr < c1 && c1 - h.plain.ctr > 16) || dup, "C04.session.secure_refuses_older_than_window");
-        kani::cover!(enc && !accepted && moved && h.plain.ctr < c1 && c1 - h.plain.ctr > 16, "secure session refuses a counter older than the window");
-        kani::cover!(!enc && accepted && moved && h.plain.ctr < c1 && c1 - h.plain.ctr > 16, "unsecured session accepts a restart");
-        kani::cover!(enc && accepted && moved && h.plain.ctr < c1, "in-window first-time counter on a secure session");
-    }
 }
 
 mod c10 {
